@@ -276,6 +276,21 @@ class AdoptSchema:
         self.other = boxes[2][1]
         self.paths = 0
         self.cases = set()
+        self.same_ops = set()     # record kinds touched when both arguments are known to name one object
+        self.alias_ops = []       # ... when the handle objects differ but may name one object
+
+    def finish(self, eng):
+        eng.obl("SYM-5", self.which, 0)
+        for ops, b, st in self.alias_ops:
+            if self.same_ops and ops not in self.same_ops:
+                eng.violate("SYM-5", "record-kind-depends-on-handle-identity",
+                            "%s records a self-adoption (owner and target are one object) under %s when both arguments are the same handle object, but under %s when they are two handles to that object: an adoption recorded through one pair of handles is not found by unadopt through another pair, and a stale record stays behind" % (
+                                self.which, self._kinds(next(iter(self.same_ops))), self._kinds(ops)), b, st)
+                break
+
+    @staticmethod
+    def _kinds(ops):
+        return "/".join(sorted(set(KIND_NAMES.get(o[2], "?") for o in ops))) or "nothing"
 
     def on_event(self, eng, ev, st):
         if ev.kind in ("set", "moveout", "free", "user", "handle_drop", "vec", "handle_new", "fill", "indirect"):
@@ -289,8 +304,20 @@ class AdoptSchema:
         eng.obl("SYM-1" if self.which == "adopt" else "SYM-2", "return", ev.b)
         eng.obl("EFF-3", self.which, ev.b)
         ops = sorted(((f[1], f[2], f[3], f[4], f[5]) for f in st.flags if f[0] == "top"), key=repr)
-        same = ("eq", ("param", 1), ("param", 2)) in st.rel or ("eq", ("param", 2), ("param", 1)) in st.rel
-        diff = ("ne", ("param", 1), ("param", 2)) in st.rel or ("ne", ("param", 2), ("param", 1)) in st.rel
+        def rel(kind, x, y):
+            return (kind, x, y) in st.rel or (kind, y, x) in st.rel
+        same_ref = rel("eq", ("param", 1), ("param", 2))
+        diff_ref = rel("ne", ("param", 1), ("param", 2))
+        same_obj = rel("eq", self.this, self.other)
+        diff_obj = rel("ne", self.this, self.other)
+        same = same_ref or same_obj
+        diff = (diff_ref or diff_obj) and not same
+        # SYM-5: what is recorded for a pair of objects must not depend on which handle objects name them
+        unified = sorted(((f[1], "x", f[3], "x") for f in st.flags if f[0] == "top"), key=repr)
+        if same:
+            self.same_ops.add(tuple(unified))
+        elif diff_ref and not diff_obj:
+            self.alias_ops.append((tuple(unified), ev.b, st))
         op = "add" if self.which == "adopt" else "sub"
         one = ("const", "1", None)
         if same:
